@@ -108,11 +108,111 @@ ANCHORS = [
 ]
 
 
+# T1 table: every method the asyncio classes share with the class they proxy must give every shared
+# parameter the same default (or both none).  A drifted default makes the proxy forward an explicit value
+# where the sync API lets execution_options / the Session's own defaults decide.
+PROXY_PAIRS = [
+    ("ext/asyncio/session.py", "AsyncSession", "orm/session.py", "Session"),
+    ("ext/asyncio/engine.py", "AsyncConnection", "engine/base.py", "Connection"),
+    ("ext/asyncio/engine.py", "AsyncEngine", "engine/base.py", "Engine"),
+    ("ext/asyncio/engine.py", "AsyncTransaction", "engine/base.py", "Transaction"),
+    ("ext/asyncio/result.py", "AsyncResult", "engine/result.py", "Result"),
+    ("ext/asyncio/result.py", "AsyncScalarResult", "engine/result.py", "ScalarResult"),
+    ("ext/asyncio/result.py", "AsyncMappingResult", "engine/result.py", "MappingResult"),
+    ("ext/asyncio/scoping.py", "async_scoped_session", "ext/asyncio/session.py", "AsyncSession"),
+    ("ext/asyncio/session.py", "async_sessionmaker", "orm/session.py", "sessionmaker"),
+    ("ext/asyncio/session.py", "AsyncSessionTransaction", "orm/session.py", "SessionTransaction"),
+]
+# intended differences: the session class a sessionmaker builds
+SIG_ALLOWED = {("async_sessionmaker", "__init__", "class_")}
+
+
+def _class_defaults(repo, path, cls):
+    import ast
+
+    with open(os.path.join(repo, "lib", "sqlalchemy", path)) as f:
+        tree = ast.parse(f.read())
+    found = [n for n in tree.body if isinstance(n, ast.ClassDef) and n.name == cls]
+    if len(found) != 1:
+        raise RuntimeError("C29 signature table: class %s not found exactly once in %s" % (cls, path))
+    out = {}
+    for m in found[0].body:
+        if not isinstance(m, (ast.FunctionDef, ast.AsyncFunctionDef)):
+            continue
+        if any(isinstance(d, ast.Name) and d.id == "overload" for d in m.decorator_list):
+            continue
+        a = m.args
+        pos = a.posonlyargs + a.args
+        d = {x.arg: "<required>" for x in pos[: len(pos) - len(a.defaults)]}
+        for arg, default in zip(pos[len(pos) - len(a.defaults) :], a.defaults):
+            d[arg.arg] = ast.unparse(default)
+        for arg, default in zip(a.kwonlyargs, a.kw_defaults):
+            d[arg.arg] = "<required>" if default is None else ast.unparse(default)
+        out[m.name] = d
+    return out
+
+
+def signature_rows(repo):
+    rows = []
+    for ap, ac, sp, sc in PROXY_PAIRS:
+        am, sm = _class_defaults(repo, ap, ac), _class_defaults(repo, sp, sc)
+        shared = sorted(set(am) & set(sm))
+        if len(shared) < 3:
+            raise RuntimeError("C29 signature table: %s/%s share only %d methods" % (ac, sc, len(shared)))
+        for name in shared:
+            for prm in sorted(set(am[name]) & set(sm[name])):
+                if prm in ("self", "cls") or (ac, name, prm) in SIG_ALLOWED:
+                    continue
+                rows.append((ac, name, prm, am[name][prm], sm[name][prm]))
+    if len(rows) < 150:
+        raise RuntimeError("C29 signature table: only %d rows" % len(rows))
+    return rows
+
+
 def translate(repo, outdir):
+    import zlib
+
     from translate import fingerprint
 
     fingerprint.check(repo, ANCHORS, "C29")
-    return []
+    if os.environ.get("VERIF_PIN") == "1":
+        return []
+    rows = signature_rows(repo)
+    h = lambda t: zlib.crc32(t.encode("utf8"))
+    lines = [
+        "(* generated by specs/c29.py from %d proxied methods: (async default, sync default) as crc32 of the" % len(rows),
+        "   default expression source, one row per shared parameter *)",
+        "From Coq Require Import List ZArith Bool.",
+        "Import ListNotations.",
+        "Open Scope Z_scope.",
+        "Definition gen_defaults : list (Z * Z) := [",
+    ]
+    body = []
+    for ac, name, prm, x, y in rows:
+        note = "" if x == y else "  (* DIFFERS: %s.%s(%s): async %s / sync %s *)" % (ac, name, prm, x.replace("*)", "* )"), y.replace("*)", "* )"))
+        body.append("  (%d, %d)%s" % (h(x), h(y), note))
+    lines.append(";\n".join(body))
+    lines += [
+        "].",
+        "Definition defaults_agree : bool := forallb (fun r => fst r =? snd r) gen_defaults.",
+        "Lemma c29_proxy_defaults_agree : defaults_agree = true.",
+        "Proof. vm_compute; reflexivity. Qed.",
+    ]
+    path = os.path.join(outdir, "C29_sigs.v")
+    with open(path, "w") as f:
+        f.write("\n".join(lines) + "\n")
+    _FACTS["proxy_signature_rows"] = len(rows)
+    _FACTS["proxy_signature_mismatches"] = [
+        "%s.%s(%s): async %s / sync %s" % r for r in rows if r[3] != r[4]
+    ]
+    return [path]
+
+
+_FACTS = {}
+
+
+def impl_facts():
+    return dict(_FACTS)
 
 
 # ------------------------------------------------------------------ case generation
@@ -669,7 +769,7 @@ async def _settle(engine_pool):
     return co1, engine_pool.checkedout(), _warn_count(ws), len(hung)
 
 
-def _async_engine(path, ps, mo, reg):
+def _async_engine(path, ps, mo, reg, pool_timeout=0.3):
     import sqlite3
 
     import aiosqlite
@@ -691,7 +791,7 @@ def _async_engine(path, ps, mo, reg):
         "sqlite+aiosqlite:///" + path,
         pool_size=ps,
         max_overflow=mo,
-        pool_timeout=0.3,
+        pool_timeout=pool_timeout,
         connect_args={"async_creator_fn": creator_fn},
     )
     _install_recipe(engine.sync_engine)
@@ -963,6 +1063,8 @@ def match_finding(c, what):
     if in_reset and ("after clean-up and gc" in what or "after the task ended and garbage was collected" in what):
         return "C29-session-cancel-in-reset-leaks-slot"
     if _is_x(c):
+        if c["in"][0] >= 300 and "was NOT cancelled failed" in what and "database is locked" in what:
+            return "C29-cancel-in-select-keeps-write-lock-until-gc"
         return None
     ncancel = sum(1 for d in c["in"][4] if d)
     if ncancel >= 2 and "[second cancellation inside terminate()]" in what:
@@ -1000,9 +1102,28 @@ X_ORM = [
 ]
 
 
+# the behaviour of a proxied method is steered through execution_options / session defaults while its own
+# optional parameters stay at their DEFAULTS: [20,v] commit + another connection adds 100 to row v;
+# [21..24,28,29] get / get_one (plain, execution_options populate_existing, explicit populate_existing);
+# [25] execute [26] scalars [27,v] scalar with execution_options; [30] scalars plain; [31,v] merge; [32,v] refresh(x)
+X_OPT = [
+    [202, [[1, 1], [1, 2], [3], [21, 1], [20, 1], [21, 1], [23, 1], [20, 1], [22, 1], [24, 1]]],
+    [202, [[1, 1], [3], [22, 1], [20, 1], [24, 1], [20, 1], [29, 1], [20, 1], [28, 1]]],
+    [202, [[1, 1], [1, 2], [3], [30], [20, 2], [30], [26], [20, 1], [25], [20, 2], [27, 2]]],
+    [202, [[1, 1], [3], [21, 1], [20, 1], [32, 1], [20, 1], [31, 1], [2], [30], [5, 1]]],
+    [202, [[1, 1], [3], [21, 1], [20, 1], [21, 1], [8, 1], [2], [21, 1], [24, 1], [3]]],
+]
+
+
 def _extra_cases(rng, tier):
     cases = []
     thorough = tier == "thorough"
+    for top, prog in X_OPT:
+        # differential only (plus two sampled cancellations): these programs are about results
+        cases.append({"in": [top, prog, [-1] if thorough else [2, rng.randrange(1 << 20)]], "kind": "x-opt", "model": False})
+    for variant in (300, 301, 302):
+        # quick: the last eight suspensions of task A (commit / close / reset-on-return live there) are all tried
+        cases.append({"in": [variant, [], [-1] if thorough else [-3, 0, 0]], "kind": "x-two", "model": False})
     for fam, progs in (("x-core", X_CORE), ("x-orm", X_ORM)):
         pick = progs if thorough else [progs[0]] + rng.sample(progs[1:], 2)
         for top, prog in pick:
@@ -1160,6 +1281,44 @@ def _x_sync(top, prog, path):
                     elif k == 11:
                         if st[1] in objs and "x" in objs[st[1]].__dict__:
                             objs[st[1]].x = objs[st[1]].__dict__["x"] + 10
+                    elif k == 20:  # another connection changes the row (the session holds no transaction)
+                        s.commit()
+                        _ext_update(path, st[1])
+                    elif k in (21, 22, 23, 24, 28, 29):
+                        kw = {}
+                        if k in (23, 24):
+                            kw["execution_options"] = {"populate_existing": True}
+                        if k in (28, 29):
+                            kw["populate_existing"] = True
+                        g = (s.get if k in (21, 23, 28) else s.get_one)(A, st[1], **kw)
+                        objs.setdefault(st[1], g)
+                        log.append([6, -1 if g is None else g.__dict__.get("x", -2)])
+                        continue
+                    elif k == 25:
+                        r = s.execute(select(A).order_by(A.id), execution_options={"populate_existing": True}).scalars().all()
+                        log.append([1, [[a.id, a.__dict__.get("x", -2)] for a in r]])
+                        continue
+                    elif k == 26:
+                        r = s.scalars(select(A).order_by(A.id), execution_options={"populate_existing": True}).all()
+                        log.append([1, [[a.id, a.__dict__.get("x", -2)] for a in r]])
+                        continue
+                    elif k == 27:
+                        a = s.scalar(select(A).where(A.id == st[1]), execution_options={"populate_existing": True})
+                        log.append([6, -1 if a is None else a.__dict__.get("x", -2)])
+                        continue
+                    elif k == 30:
+                        r = s.scalars(select(A).order_by(A.id)).all()
+                        log.append([1, [[a.id, a.__dict__.get("x", -2)] for a in r]])
+                        continue
+                    elif k == 31:
+                        m = s.merge(A(id=st[1], x=7))
+                        log.append([6, m.__dict__.get("x", -2)])
+                        continue
+                    elif k == 32:
+                        if st[1] in objs and objs[st[1]] is not None:
+                            s.refresh(objs[st[1]], attribute_names=["x"])
+                            log.append([6, objs[st[1]].__dict__.get("x", -2)])
+                            continue
                     log.append([0])
                 except _UserError:
                     raise
@@ -1167,7 +1326,10 @@ def _x_sync(top, prog, path):
                     log.append([2, _exc_code(e)])
 
         try:
-            if top == 200:
+            if top == 202:
+                with Session(engine, expire_on_commit=False) as s:
+                    run(s, prog)
+            elif top == 200:
                 with Session(engine) as s:
                     run(s, prog)
             else:
@@ -1177,10 +1339,25 @@ def _x_sync(top, prog, path):
             out = 20
         except BaseException as e:
             out = _exc_code(e)
-        log.append([5, [[k] + _ostate(o) for k, o in sorted(objs.items())]])
+        # the asyncio program drops its session with the coroutine frame; do the same here (whether an
+        # object deleted in a committed transaction reads as "deleted" or "detached" depends on the
+        # Session object still being alive)
+        s = None
+        log.append([5, [[k] + _ostate(o) for k, o in sorted(objs.items()) if o is not None]])
     res = [out, log, list(reg.sql), _committed(path), _committed_u(path), engine.pool.checkedout()]
     engine.dispose()
     return res
+
+
+def _ext_update(path, v):
+    import sqlite3
+
+    c = sqlite3.connect(path, timeout=1.0)
+    try:
+        c.execute("update u set x = x + 100 where id = ?", (v,))
+        c.commit()
+    finally:
+        c.close()
 
 
 def _committed_u(path):
@@ -1313,6 +1490,44 @@ async def _x_async_once(top, prog, path, cs, acancel):
                     elif k == 11:
                         if st[1] in objs and "x" in objs[st[1]].__dict__:
                             objs[st[1]].x = objs[st[1]].__dict__["x"] + 10
+                    elif k == 20:  # another connection changes the row (the session holds no transaction)
+                        await s.commit()
+                        _ext_update(path, st[1])
+                    elif k in (21, 22, 23, 24, 28, 29):
+                        kw = {}
+                        if k in (23, 24):
+                            kw["execution_options"] = {"populate_existing": True}
+                        if k in (28, 29):
+                            kw["populate_existing"] = True
+                        g = await (s.get if k in (21, 23, 28) else s.get_one)(A, st[1], **kw)
+                        objs.setdefault(st[1], g)
+                        log.append([6, -1 if g is None else g.__dict__.get("x", -2)])
+                        continue
+                    elif k == 25:
+                        r = (await s.execute(select(A).order_by(A.id), execution_options={"populate_existing": True})).scalars().all()
+                        log.append([1, [[a.id, a.__dict__.get("x", -2)] for a in r]])
+                        continue
+                    elif k == 26:
+                        r = (await s.scalars(select(A).order_by(A.id), execution_options={"populate_existing": True})).all()
+                        log.append([1, [[a.id, a.__dict__.get("x", -2)] for a in r]])
+                        continue
+                    elif k == 27:
+                        a = await s.scalar(select(A).where(A.id == st[1]), execution_options={"populate_existing": True})
+                        log.append([6, -1 if a is None else a.__dict__.get("x", -2)])
+                        continue
+                    elif k == 30:
+                        r = (await s.scalars(select(A).order_by(A.id))).all()
+                        log.append([1, [[a.id, a.__dict__.get("x", -2)] for a in r]])
+                        continue
+                    elif k == 31:
+                        m = await s.merge(A(id=st[1], x=7))
+                        log.append([6, m.__dict__.get("x", -2)])
+                        continue
+                    elif k == 32:
+                        if st[1] in objs and objs[st[1]] is not None:
+                            await s.refresh(objs[st[1]], attribute_names=["x"])
+                            log.append([6, objs[st[1]].__dict__.get("x", -2)])
+                            continue
                     log.append([0])
                 except _UserError:
                     raise
@@ -1320,7 +1535,10 @@ async def _x_async_once(top, prog, path, cs, acancel):
                     log.append([2, _exc_code(e)])
 
         async def program():
-            if top == 200:
+            if top == 202:
+                async with AsyncSession(engine, expire_on_commit=False) as s:
+                    await run(s, prog)
+            elif top == 200:
                 async with AsyncSession(engine) as s:
                     await run(s, prog)
             else:
@@ -1347,7 +1565,7 @@ async def _x_async_once(top, prog, path, cs, acancel):
         co1, co2, nw, nh = await _settle(pool)
     nwarn = nw + _warn_count(ws)
     if objs is not None:
-        log.append([5, [[k] + _ostate(o) for k, o in sorted(objs.items())]])
+        log.append([5, [[k] + _ostate(o) for k, o in sorted(objs.items()) if o is not None]])
     res = [out, log, list(reg.sql), _committed(path), _committed_u(path), co2]
     # later operations on the engine work
     later = None
@@ -1400,11 +1618,192 @@ def _x_safety(sf):
     return None
 
 
+# ---- two tasks on a pool of one connection: task A (cancelled at its k-th suspension) holds the only
+# connection, task B (never cancelled) waits on the exhausted pool.  Whatever happens to A, B must get a
+# usable connection: a record may become available to another checkout only AFTER it was invalidated.
+#   300: A = conn = await engine.connect(); insert 1; commit; (finally) await conn.close()
+#   301: A = async with AsyncSession(engine) as s: s.add(A(1)); await s.commit()
+#   302: A = async with engine.connect() as conn: insert 1; select; commit
+async def _two_once(variant, path, cs):
+    import asyncio
+    import logging
+    import warnings
+
+    from sqlalchemy import insert, select, text, MetaData, Table, Column, Integer
+    from sqlalchemy.ext.asyncio import AsyncSession
+
+    logging.disable(logging.CRITICAL)
+    reg = _Reg()
+    holder = {}
+    _patch_async(holder)
+    engine = _async_engine(path, 1, 0, reg, pool_timeout=3)
+    async with engine.connect():
+        pass
+    await engine.dispose()
+    await asyncio.sleep(0.002)
+    reg.conns.clear()
+    reg.sql.clear()
+    pool = engine.sync_engine.pool
+    cnt = {"in": 0, "out": 0}
+    _patch_pool(pool, cnt)
+    ctl = _new_ctl(cs)
+    md = MetaData()
+    t = Table("t", md, Column("id", Integer, primary_key=True))
+    started = asyncio.Event()
+    b_log = []
+
+    async def prog_a():
+        if variant == 300:
+            conn = await engine.connect()
+            try:
+                started.set()
+                await asyncio.sleep(0)
+                await asyncio.sleep(0)
+                await conn.execute(insert(t).values(id=1))
+                await conn.commit()
+            finally:
+                await conn.close()
+        elif variant == 301:
+            Acls = _mapped()
+            async with AsyncSession(engine) as s:
+                s.add(Acls(id=1, x=1))
+                await s.flush()
+                started.set()
+                await asyncio.sleep(0)
+                await asyncio.sleep(0)
+                await s.commit()
+        else:
+            async with engine.connect() as conn:
+                started.set()
+                await asyncio.sleep(0)
+                await asyncio.sleep(0)
+                await conn.execute(insert(t).values(id=1))
+                (await conn.execute(select(t.c.id))).all()
+                await conn.commit()
+
+    async def prog_b():
+        await started.wait()
+        try:
+            async with engine.connect() as c:
+                rows = [r[0] for r in (await c.execute(select(t.c.id))).all()]
+                await c.execute(insert(t).values(id=50))
+                await c.commit()
+            b_log.append([0, rows])
+        except BaseException as e:
+            b_log.append([1, "%s: %s" % (type(e).__name__, str(e)[:90])])
+
+    async def runner():
+        return await _Stepper(prog_a(), ctl)
+
+    holder["ctl"] = ctl
+    out = 0
+    with warnings.catch_warnings(record=True) as ws:
+        warnings.simplefilter("always")
+        tb = asyncio.create_task(prog_b())
+        ta = asyncio.create_task(runner())
+        ctl["task"] = ta
+        try:
+            await ta
+        except BaseException as e:
+            out = _exc_code(e)
+        if not started.is_set():
+            started.set()  # A died before it had a connection: B just runs
+        try:
+            await asyncio.wait_for(tb, 6)
+        except BaseException as e:
+            b_log.append([1, "task B did not finish: %s" % type(e).__name__])
+        ta = tb = None
+        ctl["task"] = None
+        holder["ctl"] = None
+        co1, co2, nw, nh = await _settle(pool)
+    later = None
+    try:
+        async with engine.connect() as c1:
+            await c1.execute(insert(t).values(id=77))
+            await c1.commit()
+    except BaseException as e:
+        later = "%s: %s" % (type(e).__name__, str(e)[:80])
+    idle = _idle_records(pool, reg)
+    in_txn = reg.in_txn()
+    sf = {
+        "co1": co1,
+        "co2": co2,
+        "nwarn": nw + _warn_count(ws),
+        "hung": nh,
+        "later": later,
+        "idle_bad": [k for k in idle if k == -3 or (0 <= k < len(in_txn) and in_txn[k])],
+        "cnt": [cnt["out"], cnt["in"]],
+        "lockfree": _lockfree(path),
+        "co_end": pool.checkedout(),
+        "nsusp": ctl["n"],
+        "nawait": ctl["na"],
+        "inner": [],
+        "reset_cancel": ctl["reset_cancel"],
+        "a_out": out,
+        "b": b_log[0] if b_log else [1, "task B produced nothing"],
+        "committed": _committed(path),
+    }
+    await engine.dispose()
+    await asyncio.sleep(0.002)
+    return sf
+
+
+def _two_safety(sf):
+    b = sf["b"]
+    if b[0] != 0:
+        return "the task that was NOT cancelled failed while waiting for / using the pooled connection: %s" % b[1]
+    if b[1] not in ([], [1]):
+        return "the waiting task read %s" % (b[1],)
+    if 50 not in sf["committed"]:
+        return "the waiting task's committed row is missing: %s" % (sf["committed"],)
+    return _x_safety(sf)
+
+
+def _impl_two(c):
+    import asyncio
+
+    variant, _prog, sel = c["in"]
+
+    def fresh():
+        path = _dbpath()
+        _create_schema(path)
+        return path
+
+    p = fresh()
+    sf0 = asyncio.run(_two_once(variant, p, []))
+    os.remove(p)
+    viols = []
+    v0 = _two_safety(sf0)
+    if v0:
+        viols.append([-1, 0, v0])
+    n = sf0["nsusp"]
+    positions = list(range(n))
+    if sel[0] == -2:
+        positions = [sel[2]]
+    elif sel[0] == -3:
+        positions = positions[-8:]
+    elif sel != [-1]:
+        import random
+
+        positions = random.Random(sel[1]).sample(positions, min(sel[0], len(positions)))
+    for k in positions:
+        p = fresh()
+        sf = asyncio.run(_two_once(variant, p, [0] * k + [1]))
+        os.remove(p)
+        v = _two_safety(sf)
+        if v:
+            viols.append([0, k, v + (" [cancelled inside the pool's rollback-on-return]" if sf["reset_cancel"] else "")])
+    base = [sf0["a_out"], sf0["b"], sf0["committed"]]
+    return [base, base, [n, 0, len(positions)], viols[:5]]
+
+
 def _impl_extra(c):
     import asyncio
     import random
 
     top, prog, sel = c["in"]
+    if top >= 300:
+        return _impl_two(c)
 
     def fresh():
         path = _dbpath()
@@ -1449,6 +1848,8 @@ def _oracle_extra(c, obs):
         if a != b:
             return "asyncio API differs from sync API in %s: sync %s vs async %s" % (nm, a, b)
     if viols:
+        # a violation that is not the known write-lock finding is reported first
+        viols = sorted(viols, key=lambda x: "database is locked" in x[2])
         mode, k, v = viols[0]
         return "cancelled at %s %d: %s" % ("suspension" if mode == 0 else "await_ call (inner task)", k, v)
     return None
